@@ -14,8 +14,8 @@ From Coq Require Import ZArith QArith List Bool String.
 From KV Require Import Base.Sx Base.Str Base.SelSlice Base.PySlice Base.AxisIndex Base.NdArray Gen.Generated
   Model.Flags Model.DataSet Proofs.DataSetBaseP Proofs.DataSetP Proofs.DataSetTopP Proofs.DataSetExP
   Proofs.DataSetSensP Model.DataSetPre Proofs.DataSetPreP
-  Model.DataSetFreq Proofs.DataSetFreqP Model.DataSetDims Proofs.DataSetDimsP.
-From KV Require Model.Select Proofs.SelectP Model.TimeFreq Proofs.TimeFreqP.
+  Model.DataSetFreq Proofs.DataSetFreqP Model.DataSetDims Proofs.DataSetDimsP Model.DataSetWin Proofs.DataSetWinP.
+From KV Require Model.Select Proofs.SelectP Model.TimeFreq Proofs.TimeFreqP Model.SelectX Proofs.SelectXRefP.
 Import ListNotations.
 Open Scope Z_scope.
 
@@ -655,3 +655,138 @@ Theorem C01_answer_dimensions_example :
   /\ answer_shape V2 true KTime [AInt 1] [] = [].
 Proof. exact example_dims. Qed.
 Print Assumptions C01_answer_dimensions_example.
+
+(* ------------------------------------------------------------------ several spectral windows / subarrays *)
+
+(* Reading guide.  wc = a data set whose dumps were recorded with SEVERAL spectral windows (MVF v2: the RFE centre
+   frequency was retuned during the observation) and / or subarrays: [w_xo wc] lists, per dump, the window and subarray
+   it was recorded with (Observation/spw_index, Observation/subarray_index), the channel frequencies of every window and
+   the products of every subarray; [w_cfg wc] is the format description of the single-window theorems.  A history is a
+   list of wop := WSelect kw | WAcquire kind | WIndex id ix2 | WObserve; WSelect is C02's model [SelectX.xselect] of
+   DataSet.select with spw= / subarray= (which always leaves a state behind, also when the call raises part-way);
+   [call_ok]: the keywords of a call are distinct (a Python call); [accepted]: no call of the history raised part-way.
+   [dump_win xo i] / [dump_sub xo i]: the window / subarray dump i was recorded with. *)
+
+(* the dump mask from which the time dimension restarts -- whatever makes it restart -- as re-translated from
+   dataset.py: the dumps recorded with the requested window AND subarray *)
+Theorem C01_window_time_base : forall xo spw sub,
+  SelectX.window_mask xo spw sub
+  = map (fun x => (SelectX.xd_spw x =? spw) && (SelectX.xd_sub x =? sub)) (SelectX.x_dumps xo).
+Proof. exact window_base_documented. Qed.
+Print Assumptions C01_window_time_base.
+
+(* After EVERY history of select() calls of any kind (spw=, subarray=, time / frequency / product criteria, any reset
+   string, the bare select(), calls that raise part-way), acquisitions and reads: every dump of the time mask -- the
+   dumps every indexer acquired now serves and timestamps / sensors are masked with -- was recorded with the ACTIVE
+   spectral window and the ACTIVE subarray. *)
+Theorem C01_window_dumps : forall wc h, SelectXRefP.has_windows (w_xo wc) -> Forall call_ok h ->
+  let s := ws_sel (wrun wc (wstart wc) h) in
+  forall i, In i (dumps (SelectX.x_core s)) ->
+    dump_win (w_xo wc) i = SelectX.x_spw s /\ dump_sub (w_xo wc) i = SelectX.x_sub s.
+Proof. exact window_dumps. Qed.
+Print Assumptions C01_window_dumps.
+
+(* When no call raised part-way, the public attributes are those of the masks under the active window / subarray:
+   dumps / channels = nonzero, shape = the mask sums, freqs = channel frequencies OF THE ACTIVE WINDOW at the selected
+   channels, corr_products = products OF THE ACTIVE SUBARRAY at the selected positions. *)
+Theorem C01_window_attributes : forall wc h, SelectXRefP.has_windows (w_xo wc) -> Forall call_ok h ->
+  accepted wc (wstart wc) h ->
+  let s := ws_sel (wrun wc (wstart wc) h) in
+  wdumps s = dumps (SelectX.x_core s) /\ wchannels s = channels (SelectX.x_core s)
+  /\ wshape s = shape (SelectX.x_core s)
+  /\ wfreqs s = freqs (SelectX.w_freqs (win_of (w_xo wc) (SelectX.x_spw s))) (SelectX.x_core s)
+  /\ wcps s = corr_products (cfg_of wc s) (SelectX.x_core s).
+Proof. exact window_attributes. Qed.
+Print Assumptions C01_window_attributes.
+
+(* shape = (|dumps|, |channels|, |corr_products|), len(freqs) = |channels|, = the shape advertised and delivered (x[:])
+   by an indexer of any kind acquired now *)
+Theorem C01_window_shape : forall wc h, SelectXRefP.has_windows (w_xo wc) -> Forall call_ok h ->
+  accepted wc (wstart wc) h -> cfg_ok (cfg_at wc 0 0) ->
+  let s := ws_sel (wrun wc (wstart wc) h) in
+  wshape s = [zlen (wdumps s); zlen (wchannels s); zlen (wcps s)]
+  /\ zlen (wfreqs s) = zlen (wchannels s)
+  /\ forall k, adv_shape (wacquire wc s k) = (match k with KTime => [zlen (wdumps s)] | _ => wshape s end)
+       /\ forall S, exists out, index S (wacquire wc s k) [] = Ok out /\ nd_shape out = adv_shape (wacquire wc s k).
+Proof. exact window_shape. Qed.
+Print Assumptions C01_window_shape.
+
+(* THE LABELS ARE THOSE OF THE SELECTED DUMPS: for every selected dump i, freqs[j] is the documented frequency of channel
+   channels[j] in the window dump i was recorded with, and corr_products[l] is product cp_idx[l] of the subarray dump i
+   was recorded with (so freqs / corr_products describe the samples vis / flags / weights deliver for that dump). *)
+Theorem C01_window_labels : forall wc h, SelectXRefP.has_windows (w_xo wc) -> Forall call_ok h ->
+  accepted wc (wstart wc) h ->
+  let s := ws_sel (wrun wc (wstart wc) h) in
+  forall i, In i (wdumps s) ->
+    dump_win (w_xo wc) i = SelectX.x_spw s /\ dump_sub (w_xo wc) i = SelectX.x_sub s
+    /\ (forall j, 0 <= j < zlen (wchannels s) ->
+          nth (Z.to_nat j) (wfreqs s) (-1) = dump_chan_freq (w_xo wc) i (znth (wchannels s) j))
+    /\ (forall l, 0 <= l < zlen (cp_idx (SelectX.x_core s)) ->
+          nth (Z.to_nat l) (wcps s) ((-1, -1), (-1, -1))
+          = dump_cprod (w_xo wc) i (znth (cp_idx (SelectX.x_core s)) l)).
+Proof. exact window_labels. Qed.
+Print Assumptions C01_window_labels.
+
+(* C01_elements on a data set with several windows / subarrays: every stored content S, every history h1, three-axis
+   kind, EVERY continuation h2 (incl. select(spw=...) onto another window), every answered ix2: element (i, j, l) is the
+   stored sample at (dumps[pt[i]], channels[pf[j]], cps[pb[l]]) of the selection in force at acquisition, and that dump
+   was recorded with the window and subarray active at acquisition. *)
+Theorem C01_window_elements : forall wc S h1 k h2 ix2 out, SelectXRefP.has_windows (w_xo wc) ->
+  cfg_ok (cfg_at wc 0 0) -> k <> KTime -> Forall call_ok h1 ->
+  let d1 := wrun wc (wstart wc) h1 in
+  windex_op S (wrun wc (wstart wc) (h1 ++ WAcquire k :: h2)) (List.length (ws_ixs d1)) ix2 = Ok out ->
+  let s := ws_sel d1 in
+  let m := SelectX.x_core s in
+  exists pt pf pb,
+    resolve_keep (zlen (dumps m)) (ix_at ix2 3 0) = Ok pt
+    /\ resolve_keep (zlen (channels m)) (ix_at ix2 3 1) = Ok pf
+    /\ resolve_keep (zlen (cp_idx m)) (ix_at ix2 3 2) = Ok pb
+    /\ nd_shape out = [zlen pt; zlen pf; zlen pb]
+    /\ forall i j l, 0 <= i < zlen pt -> 0 <= j < zlen pf -> 0 <= l < zlen pb ->
+         get (nd_body out) [i; j; l]
+         = get S [znth (dumps m) (znth pt i); znth (channels m) (znth pf j); znth (cp_idx m) (znth pb l)]
+         /\ dump_win (w_xo wc) (znth (dumps m) (znth pt i)) = SelectX.x_spw s
+         /\ dump_sub (w_xo wc) (znth (dumps m) (znth pt i)) = SelectX.x_sub s.
+Proof. exact window_elements. Qed.
+Print Assumptions C01_window_elements.
+
+Theorem C01_window_elements_timestamps : forall wc S h1 h2 ix2 out, SelectXRefP.has_windows (w_xo wc) ->
+  cfg_ok (cfg_at wc 0 0) -> Forall call_ok h1 ->
+  let d1 := wrun wc (wstart wc) h1 in
+  windex_op S (wrun wc (wstart wc) (h1 ++ WAcquire KTime :: h2)) (List.length (ws_ixs d1)) ix2 = Ok out ->
+  let s := ws_sel d1 in
+  let m := SelectX.x_core s in
+  exists pt,
+    resolve_keep (zlen (dumps m)) (ix_at ix2 1 0) = Ok pt
+    /\ nd_shape out = [zlen pt]
+    /\ forall i, 0 <= i < zlen pt ->
+         get (nd_body out) [i] = get S [znth (dumps m) (znth pt i)]
+         /\ dump_win (w_xo wc) (znth (dumps m) (znth pt i)) = SelectX.x_spw s
+         /\ dump_sub (w_xo wc) (znth (dumps m) (znth pt i)) = SelectX.x_sub s.
+Proof. exact window_elements_timestamps. Qed.
+Print Assumptions C01_window_elements_timestamps.
+
+(* on labels (the wire): the executable model answers exactly what the executable spec demands *)
+Theorem C01_window_model_is_spec : forall wc h1 k ix2 out, SelectXRefP.has_windows (w_xo wc) ->
+  cfg_ok (cfg_at wc 0 0) -> Forall call_ok h1 ->
+  let s := ws_sel (wrun wc (wstart wc) h1) in
+  let x := wacquire wc s k in
+  index (stored_labels x) x ix2 = Ok out ->
+  spec_index (cfg_of wc s) (SelectX.x_core s) k ix2 = Ok (nd_shape out, flatten (nd_body out)).
+Proof. exact window_model_is_spec. Qed.
+Print Assumptions C01_window_model_is_spec.
+
+(* non-vacuity: three dumps recorded with windows 0 / 1 / 0; as opened: dumps [0; 2] with the frequencies of window 0;
+   select(spw=1): dump [1] with those of window 1; then select(dumps=slice(None)) and the bare select() restart the
+   time axis and STILL select dump [1] only *)
+Theorem C01_window_example :
+  let s0 := ws_sel (wstart ex_wc) in
+  let s1 := ws_sel (wrun ex_wc (wstart ex_wc) [ex_spw1]) in
+  let s2 := ws_sel (wrun ex_wc (wstart ex_wc) [ex_spw1; ex_dumps_all]) in
+  let s3 := ws_sel (wrun ex_wc (wstart ex_wc) [ex_spw1; ex_dumps_all; ex_bare]) in
+  (wdumps s0, wfreqs s0) = ([0; 2], [100; 96])
+  /\ (wdumps s1, wfreqs s1) = ([1], [60; 56])
+  /\ (wdumps s2, wfreqs s2, SelectX.x_spw s2) = ([1], [60; 56], 1)
+  /\ (wdumps s3, wfreqs s3, SelectX.x_spw s3) = ([1], [60; 56], 1).
+Proof. exact window_example. Qed.
+Print Assumptions C01_window_example.
